@@ -695,6 +695,9 @@ const EXTRA: &[&str] = &[
     "(module (import \"e\" \"g0\" (global funcref)) (import \"e\" \"g1\" (global funcref)) (table 1 funcref (global.get 1)))",
     "(module (import \"e\" \"g0\" (global funcref)) (import \"e\" \"g1\" (global funcref)) (import \"e\" \"g2\" (global funcref)) (func) (table 2 funcref (global.get 2)) (table 1 funcref (global.get 0)))",
     "(module (import \"e\" \"g0\" (global i32)) (import \"e\" \"g1\" (global i32)) (import \"e\" \"g2\" (global i32)) (memory 1) (table 4 funcref) (func) (elem (offset (global.get 2)) func 0) (data (offset (global.get 1)) \"x\") (global i32 (global.get 2)))",
+    // explicit recursion groups of one member and of none are not the same as plain types
+    "(module (rec (type $t (func))) (type $u (func (param i32))) (rec) (rec (type $s (struct (field i32)))) (func (type $t)) (func (type $u) (param i32)))",
+    "(module (type $a (func)) (rec (type $b (struct (field (ref null $b))))) (rec (type $c (func)) (type $d (array i8))) (rec (type $e (func (result i32)))) (func (type $e) (result i32) i32.const 0))",
 ];
 
 pub fn run(ctx: &mut Ctx) {
